@@ -42,7 +42,11 @@ MANIFEST = dict(
           "ValueError; partial correctness of root(): a returned abscissa lies inside the requested interval "
           "clamped to the table and the interpolant there is within the tolerance; minmax() is root() of the "
           "derivative polynomial; planetary_conjunction returns a time inside the table at which the interpolated "
-          "right-ascension difference is within the tolerance of zero. The model is tied to /repo by running its binary64 instantiation against the real code bit "
+          "right-ascension difference is within the tolerance of zero; root() returns a limit at which the interpolant "
+          "is within the tolerance, refuses limits closer than the tolerance and intervals whose ends have the same sign "
+          "with ValueError and never raises anything but ValueError when the interval meets the table; the time returned by "
+          "planetary_conjunction lies in [-h, n-1-h]; the one-list form and lists of unequal length reduce to the two-list "
+          "form. The model is tied to /repo by running its binary64 instantiation against the real code bit "
           "for bit (construction, value, derivative, root, minmax, conjunction helpers) and the predicates of every "
           "clause are evaluated on the implementation against an exact rational Lagrange oracle. Not carried by a "
           "theorem: convergence of the Newton/false-position/bisection iteration to the tolerance (proved: the loop ends "
